@@ -56,6 +56,20 @@ CUT_CELLS = 1024            # cells on each side of u = 1/2 left out of the geom
 INF = float("inf")
 
 
+def over_time(ctx, share=1.0):
+    """soft deadline so that a run (and the 10x failing-input search after a disagreement) stays inside its tier's time
+    budget even on a loaded machine; the families stop generating new cases once it has passed"""
+    import time
+    limit = (140.0 if ctx.tier == "quick" else 900.0) * (2.0 if ctx.searching else 1.0) * share
+    if time.time() - ctx.t0 > limit:
+        if not getattr(ctx, "_time_noted", False):
+            ctx.note(f"time budget reached after {time.time() - ctx.t0:.0f}s: remaining generated cases skipped")
+            ctx._time_noted = True
+        ctx.count("cases_skipped_for_time")
+        return True
+    return False
+
+
 def canon(v):
     if isinstance(v, (np.integer,)):
         return int(v)
@@ -432,6 +446,8 @@ def check_geometric(ctx, r, n):
     s_min_full = {"p": 0.05 if quick else 0.012, "t": 0.05 if quick else 0.012, "f": 0.12 if quick else 0.04}
     lines, cases = [], []
     for _ in range(n):
+        if over_time(ctx, 0.55):
+            break
         c = gen_geom_case(r, ctx.tier)
         v, eps, sens, x, xp = c["variant"], c["epsilon"], c["sensitivity"], c["x"], c["xp"]
         sc = Scripted(build_geom(v, eps, sens, c["lower"], c["upper"]))
@@ -771,6 +787,8 @@ def exp_sig(c, neg=False):
 def check_exponential(ctx, r, n, negative=False):
     lines, cases = [], []
     for _ in range(n):
+        if over_time(ctx, 0.65):
+            break
         c = gen_exp_case(r)
         if negative:
             k = len(c["utility"])
@@ -1025,9 +1043,11 @@ def check_paf(ctx, r, n):
     quick = ctx.tier == "quick"
     lines, cases = [], []
     for i in range(n):
+        if over_time(ctx, 0.85):
+            break
         c = gen_exp_case(r, paf=True, nmax=(5 if quick else 7) if i % 8 else (6 if quick else 8))
         k = len(c["utility"])
-        cutoff = 1e-12
+        cutoff = 1e-14
         laws = {}
         with coin_interposed():
             for tag in ("utility", "utility_p"):
@@ -1253,6 +1273,8 @@ def check_categorical(ctx, r, n):
     fixed = [{"epsilon": ISCLOSE_WITNESS["params"]["epsilon"], "utility_list": ISCLOSE_WITNESS["params"]["utility_list"],
               "mode": "regression witness of 252dfe7"}]
     for i in range(n):
+        if i >= len(fixed) and over_time(ctx, 0.93):
+            break
         c = fixed[i] if i < len(fixed) else gen_cat_case(r)
         eps, ul = c["epsilon"], c["utility_list"]
         labels = []
@@ -1348,6 +1370,8 @@ def hier_tokens(h, ranks):
 def check_hierarchical(ctx, r, n):
     hlines, hcases = [], []
     for _ in range(n):
+        if over_time(ctx, 1.0):
+            break
         h = gen_hierarchy(r)
         eps = draw_eps(r)
         labels = flat_leaves(h)
@@ -1396,14 +1420,14 @@ def check_hierarchical(ctx, r, n):
 
 
 def check(ctx):
-    check_binary(ctx, ctx.fork("binary"), ctx.budget(25, 300))
-    check_geometric(ctx, ctx.fork("geometric"), ctx.budget(60, 1200))
-    check_exponential(ctx, ctx.fork("exponential"), ctx.budget(150, 3000))
+    check_binary(ctx, ctx.fork("binary"), ctx.budget(60, 300))
+    check_geometric(ctx, ctx.fork("geometric"), ctx.budget(150, 800))
+    check_exponential(ctx, ctx.fork("exponential"), ctx.budget(500, 3000))
     check_exponential(ctx, ctx.fork("negative-measure"), ctx.budget(20, 200), negative=True)
-    check_bernoulli(ctx, ctx.fork("bernoulli"), ctx.budget(30, 300))
-    check_paf(ctx, ctx.fork("paf"), ctx.budget(40, 500))
-    check_categorical(ctx, ctx.fork("categorical"), ctx.budget(120, 2500))
-    check_hierarchical(ctx, ctx.fork("hierarchical"), ctx.budget(60, 1000))
+    check_bernoulli(ctx, ctx.fork("bernoulli"), ctx.budget(60, 300))
+    check_paf(ctx, ctx.fork("paf"), ctx.budget(100, 300))
+    check_categorical(ctx, ctx.fork("categorical"), ctx.budget(400, 2500))
+    check_hierarchical(ctx, ctx.fork("hierarchical"), ctx.budget(200, 1000))
 
 
 # ------------------------------------------------------------------------------------------------------------------
